@@ -302,7 +302,7 @@ func expandStep(cur variant, st sealStep, prev []sealStep, orig []byte, lay layo
 			databits := hi - lo
 			v := strings.IndexByte(b64alpha, str[j])
 			full := 0x3f &^ ((1 << (6 - databits)) - 1) // data bits of this char
-			for _, m := range []int{1 << (6 - databits), 0x20, full, (1 + rnd.Intn(63)) & full} {
+			for _, m := range []int{1 << (6 - databits), full, (1 + rnd.Intn(63)) & full} {
 				if m == 0 {
 					continue
 				}
@@ -339,9 +339,8 @@ func expandStep(cur variant, st sealStep, prev []sealStep, orig []byte, lay layo
 	case "a_ws":
 		str := base64.StdEncoding.EncodeToString(raw)
 		for j := 0; j <= len(str); j++ {
-			for _, ws := range []string{"\n", "\r\n"} {
-				fin(str[:j]+ws+str[j:], fmt.Sprintf("b64ws@%d:%q", j, ws))
-			}
+			ws := []string{"\n", "\r\n", "\r"}[(j+int(rnd.Int31n(3)))%3]
+			fin(str[:j]+ws+str[j:], fmt.Sprintf("b64ws@%d:%q", j, ws))
 		}
 	case "a_bad":
 		str := base64.StdEncoding.EncodeToString(raw)
